@@ -13,6 +13,23 @@ int p2sh_lines_start = -1;
 
 #define fail(msg...) do { fprintf(stderr, msg); return 0; } while (0)
 
+std::vector<std::string> script_listing(const CScript& script, CScript::const_iterator from) {
+    std::vector<std::string> lines;
+    opcodetype opcode;
+    valtype push;
+    CScript::const_iterator it = from;
+    while (it < script.end()) {
+        CScript::const_iterator op = it;
+        if (!script.GetOp(it, opcode, push)) {
+            lines.push_back("<undecodable: " + HexStr(std::vector<uint8_t>(op, script.end())) + ">");
+            break;
+        }
+        // (no fixed-size buffer: a 520 byte push is 1040 hex characters)
+        lines.push_back(push.size() > 0 ? HexStr(push) : std::string(GetOpName(opcode)));
+    }
+    return lines;
+}
+
 // The redeem script of a P2SH spend is whatever is on top of the stack when the scriptPubKey takes over: what the last push
 // still to come in the scriptSig leaves there or, once the scriptSig has been executed, the top of the stack as it is (`exec`
 // may have changed it). False when there is no redeem script to come (no P2SH output, or it is being executed already).
@@ -44,13 +61,8 @@ static bool predicted_redeem_script(CScript& redeem) {
 void relist_p2sh() {
     CScript redeem;
     if (p2sh_lines_start < 0 || !predicted_redeem_script(redeem)) return;
-    std::vector<std::string> lines;
-    CScript::const_iterator it = redeem.begin();
-    opcodetype opcode;
-    valtype push;
-    while (redeem.GetOp(it, opcode, push)) {
-        lines.push_back(strprintf("#%04d ", p2sh_lines_start + (int)lines.size()) + (push.size() > 0 ? HexStr(push) : std::string(GetOpName(opcode))));
-    }
+    std::vector<std::string> lines = script_listing(redeem, redeem.begin());
+    for (size_t i = 0; i < lines.size(); ++i) lines[i] = strprintf("#%04d ", p2sh_lines_start + (int)i) + lines[i];
     for (int i = p2sh_lines_start; i < count; ++i) free(script_lines[i]);
     count = p2sh_lines_start + (int)lines.size();
     script_lines = (char**)realloc(script_lines, sizeof(char*) * (count > 0 ? count : 1));
@@ -108,10 +120,7 @@ inline void svprintscripts(std::vector<std::string>& l, int& lmax, std::vector<C
             it = script->begin();
         }
 
-        while (script->GetOp(it, opcode, vchPushValue)) {
-            begun = true;
-            // (no fixed-size buffer: a 520 byte push is 1040 hex characters)
-            auto s = vchPushValue.size() > 0 ? HexStr(vchPushValue) : GetOpName(opcode);
+        for (const std::string& s : script_listing(*script, it)) {
             if (s.length() > lmax) lmax = s.length();
             l.push_back(s);
         }
